@@ -10,6 +10,7 @@ import DateutilVerif.Proofs.RenderGenB
 import DateutilVerif.Proofs.RenderGenC
 import DateutilVerif.Proofs.RenderGenD
 import DateutilVerif.Proofs.RenderGenE
+import DateutilVerif.Proofs.RenderCompactFrac
 namespace C02
 open PM Py PT
 
@@ -202,6 +203,17 @@ theorem parse_render_compact (cls : Char → CClass) [AsciiOK cls] (yf : Bool) (
     parse cls (Info.default false yf year century) o tznames tzi dflt (renderCompact f t) =
       .ok { dt := f.expect t dflt, tz := .naive, tokens := none } :=
   parse_compact cls yf year century o tznames tzi ho dflt hdv t ht f
+
+/-- **family 3b**: a compact time with a fraction, `HHMMSS(.|,)f{1..6}`, after `YYYYMMDDT`, `YYYY-MM-DDT` or `YYYY-MM-DD `,
+    followed by any offset spelling: one lexer token (a comma is a decimal mark after ANY run of two or more digits — seed
+    C02F made it one only after exactly two), read by its shape as hour, minute, second and fraction -/
+theorem parse_render_compact_fraction (cls : Char → CClass) [AsciiOK cls] (yf : Bool) (year century : Int) (o : Opts)
+    (tznames : List Token) (tzi : TzInfos) (ho : PlainOpts o tzi) (dflt : DT) (hdv : dflt.Valid) (t : DT) (ht : t.Valid)
+    (hd : CFHead) (comma : Bool) (k : Nat) (hk1 : 1 ≤ k) (hk6 : k ≤ 6) (off : Off) (hoff : off.Dom) :
+    parse cls (Info.default false yf year century) o tznames tzi dflt (renderCFrac hd comma k t off) =
+      .ok { dt := (TimeFmt.frac comma k).expect t dflt, tz := if o.ignoretz then .naive else offDescr tznames off,
+            tokens := none } :=
+  parse_cfrac cls yf year century o tznames tzi ho dflt hdv t ht hd comma k hk1 hk6 off hoff
 
 /-- **family 4**: ctime `Www Mmm dd HH:MM:SS YYYY`, RFC 2822 `Www, DD Mmm YYYY HH:MM:SS<offset>`, `Month D, YYYY`,
     `D Mon YYYY` (year ≥ 100: D-C02 is exactly the excluded class) and `DD-Mon-YYYY` (every year); the weekday word
@@ -423,6 +435,158 @@ def TemplateThm (id : String) : Prop :=
     (∀ (cls : Char → CClass) [AsciiOK cls] (yf : Bool) (year century : Int) (o : Opts) (tznames : List Token) (tzi : TzInfos) (ho : PlainOpts o tzi) (t dflt : DT) (ht : t.Valid) (hdv : dflt.Valid) (off : Off) (hoff : off.Dom),
       parse cls (Info.default false yf year century) o tznames tzi dflt (renderIsoX 'T' (.frac false 5) t off) =
         .ok { dt := TimeFmt.expect (.frac false 5) t dflt, tz := if o.ignoretz then .naive else offDescr tznames off, tokens := none })
+  else if id = "iso_T_comma_f1" then
+    (∀ (cls : Char → CClass) [AsciiOK cls] (yf : Bool) (year century : Int) (o : Opts) (tznames : List Token) (tzi : TzInfos) (ho : PlainOpts o tzi) (t dflt : DT) (ht : t.Valid) (hdv : dflt.Valid) (off : Off) (hoff : off.Dom),
+      parse cls (Info.default false yf year century) o tznames tzi dflt (renderIsoX 'T' (.frac true 1) t off) =
+        .ok { dt := TimeFmt.expect (.frac true 1) t dflt, tz := if o.ignoretz then .naive else offDescr tznames off, tokens := none })
+  else if id = "iso_T_comma_f2" then
+    (∀ (cls : Char → CClass) [AsciiOK cls] (yf : Bool) (year century : Int) (o : Opts) (tznames : List Token) (tzi : TzInfos) (ho : PlainOpts o tzi) (t dflt : DT) (ht : t.Valid) (hdv : dflt.Valid) (off : Off) (hoff : off.Dom),
+      parse cls (Info.default false yf year century) o tznames tzi dflt (renderIsoX 'T' (.frac true 2) t off) =
+        .ok { dt := TimeFmt.expect (.frac true 2) t dflt, tz := if o.ignoretz then .naive else offDescr tznames off, tokens := none })
+  else if id = "iso_T_comma_f4" then
+    (∀ (cls : Char → CClass) [AsciiOK cls] (yf : Bool) (year century : Int) (o : Opts) (tznames : List Token) (tzi : TzInfos) (ho : PlainOpts o tzi) (t dflt : DT) (ht : t.Valid) (hdv : dflt.Valid) (off : Off) (hoff : off.Dom),
+      parse cls (Info.default false yf year century) o tznames tzi dflt (renderIsoX 'T' (.frac true 4) t off) =
+        .ok { dt := TimeFmt.expect (.frac true 4) t dflt, tz := if o.ignoretz then .naive else offDescr tznames off, tokens := none })
+  else if id = "iso_T_comma_f5" then
+    (∀ (cls : Char → CClass) [AsciiOK cls] (yf : Bool) (year century : Int) (o : Opts) (tznames : List Token) (tzi : TzInfos) (ho : PlainOpts o tzi) (t dflt : DT) (ht : t.Valid) (hdv : dflt.Valid) (off : Off) (hoff : off.Dom),
+      parse cls (Info.default false yf year century) o tznames tzi dflt (renderIsoX 'T' (.frac true 5) t off) =
+        .ok { dt := TimeFmt.expect (.frac true 5) t dflt, tz := if o.ignoretz then .naive else offDescr tznames off, tokens := none })
+  else if id = "iso_sp_dot_f1" then
+    (∀ (cls : Char → CClass) [AsciiOK cls] (yf : Bool) (year century : Int) (o : Opts) (tznames : List Token) (tzi : TzInfos) (ho : PlainOpts o tzi) (t dflt : DT) (ht : t.Valid) (hdv : dflt.Valid) (off : Off) (hoff : off.Dom),
+      parse cls (Info.default false yf year century) o tznames tzi dflt (renderIsoX ' ' (.frac false 1) t off) =
+        .ok { dt := TimeFmt.expect (.frac false 1) t dflt, tz := if o.ignoretz then .naive else offDescr tznames off, tokens := none })
+  else if id = "iso_sp_dot_f2" then
+    (∀ (cls : Char → CClass) [AsciiOK cls] (yf : Bool) (year century : Int) (o : Opts) (tznames : List Token) (tzi : TzInfos) (ho : PlainOpts o tzi) (t dflt : DT) (ht : t.Valid) (hdv : dflt.Valid) (off : Off) (hoff : off.Dom),
+      parse cls (Info.default false yf year century) o tznames tzi dflt (renderIsoX ' ' (.frac false 2) t off) =
+        .ok { dt := TimeFmt.expect (.frac false 2) t dflt, tz := if o.ignoretz then .naive else offDescr tznames off, tokens := none })
+  else if id = "iso_sp_dot_f4" then
+    (∀ (cls : Char → CClass) [AsciiOK cls] (yf : Bool) (year century : Int) (o : Opts) (tznames : List Token) (tzi : TzInfos) (ho : PlainOpts o tzi) (t dflt : DT) (ht : t.Valid) (hdv : dflt.Valid) (off : Off) (hoff : off.Dom),
+      parse cls (Info.default false yf year century) o tznames tzi dflt (renderIsoX ' ' (.frac false 4) t off) =
+        .ok { dt := TimeFmt.expect (.frac false 4) t dflt, tz := if o.ignoretz then .naive else offDescr tznames off, tokens := none })
+  else if id = "iso_sp_dot_f5" then
+    (∀ (cls : Char → CClass) [AsciiOK cls] (yf : Bool) (year century : Int) (o : Opts) (tznames : List Token) (tzi : TzInfos) (ho : PlainOpts o tzi) (t dflt : DT) (ht : t.Valid) (hdv : dflt.Valid) (off : Off) (hoff : off.Dom),
+      parse cls (Info.default false yf year century) o tznames tzi dflt (renderIsoX ' ' (.frac false 5) t off) =
+        .ok { dt := TimeFmt.expect (.frac false 5) t dflt, tz := if o.ignoretz then .naive else offDescr tznames off, tokens := none })
+  else if id = "compact_T_dot_f1" then
+    (∀ (cls : Char → CClass) [AsciiOK cls] (yf : Bool) (year century : Int) (o : Opts) (tznames : List Token) (tzi : TzInfos) (ho : PlainOpts o tzi) (t dflt : DT) (ht : t.Valid) (hdv : dflt.Valid) (off : Off) (hoff : off.Dom),
+      parse cls (Info.default false yf year century) o tznames tzi dflt (renderCFrac .compactT false 1 t off) =
+        .ok { dt := TimeFmt.expect (.frac false 1) t dflt, tz := if o.ignoretz then .naive else offDescr tznames off, tokens := none })
+  else if id = "iso_T_ctime_dot_f1" then
+    (∀ (cls : Char → CClass) [AsciiOK cls] (yf : Bool) (year century : Int) (o : Opts) (tznames : List Token) (tzi : TzInfos) (ho : PlainOpts o tzi) (t dflt : DT) (ht : t.Valid) (hdv : dflt.Valid) (off : Off) (hoff : off.Dom),
+      parse cls (Info.default false yf year century) o tznames tzi dflt (renderCFrac .isoT false 1 t off) =
+        .ok { dt := TimeFmt.expect (.frac false 1) t dflt, tz := if o.ignoretz then .naive else offDescr tznames off, tokens := none })
+  else if id = "iso_sp_ctime_dot_f1" then
+    (∀ (cls : Char → CClass) [AsciiOK cls] (yf : Bool) (year century : Int) (o : Opts) (tznames : List Token) (tzi : TzInfos) (ho : PlainOpts o tzi) (t dflt : DT) (ht : t.Valid) (hdv : dflt.Valid) (off : Off) (hoff : off.Dom),
+      parse cls (Info.default false yf year century) o tznames tzi dflt (renderCFrac .isoSp false 1 t off) =
+        .ok { dt := TimeFmt.expect (.frac false 1) t dflt, tz := if o.ignoretz then .naive else offDescr tznames off, tokens := none })
+  else if id = "compact_T_dot_f2" then
+    (∀ (cls : Char → CClass) [AsciiOK cls] (yf : Bool) (year century : Int) (o : Opts) (tznames : List Token) (tzi : TzInfos) (ho : PlainOpts o tzi) (t dflt : DT) (ht : t.Valid) (hdv : dflt.Valid) (off : Off) (hoff : off.Dom),
+      parse cls (Info.default false yf year century) o tznames tzi dflt (renderCFrac .compactT false 2 t off) =
+        .ok { dt := TimeFmt.expect (.frac false 2) t dflt, tz := if o.ignoretz then .naive else offDescr tznames off, tokens := none })
+  else if id = "iso_T_ctime_dot_f2" then
+    (∀ (cls : Char → CClass) [AsciiOK cls] (yf : Bool) (year century : Int) (o : Opts) (tznames : List Token) (tzi : TzInfos) (ho : PlainOpts o tzi) (t dflt : DT) (ht : t.Valid) (hdv : dflt.Valid) (off : Off) (hoff : off.Dom),
+      parse cls (Info.default false yf year century) o tznames tzi dflt (renderCFrac .isoT false 2 t off) =
+        .ok { dt := TimeFmt.expect (.frac false 2) t dflt, tz := if o.ignoretz then .naive else offDescr tznames off, tokens := none })
+  else if id = "compact_T_dot_f3" then
+    (∀ (cls : Char → CClass) [AsciiOK cls] (yf : Bool) (year century : Int) (o : Opts) (tznames : List Token) (tzi : TzInfos) (ho : PlainOpts o tzi) (t dflt : DT) (ht : t.Valid) (hdv : dflt.Valid) (off : Off) (hoff : off.Dom),
+      parse cls (Info.default false yf year century) o tznames tzi dflt (renderCFrac .compactT false 3 t off) =
+        .ok { dt := TimeFmt.expect (.frac false 3) t dflt, tz := if o.ignoretz then .naive else offDescr tznames off, tokens := none })
+  else if id = "iso_T_ctime_dot_f3" then
+    (∀ (cls : Char → CClass) [AsciiOK cls] (yf : Bool) (year century : Int) (o : Opts) (tznames : List Token) (tzi : TzInfos) (ho : PlainOpts o tzi) (t dflt : DT) (ht : t.Valid) (hdv : dflt.Valid) (off : Off) (hoff : off.Dom),
+      parse cls (Info.default false yf year century) o tznames tzi dflt (renderCFrac .isoT false 3 t off) =
+        .ok { dt := TimeFmt.expect (.frac false 3) t dflt, tz := if o.ignoretz then .naive else offDescr tznames off, tokens := none })
+  else if id = "iso_sp_ctime_dot_f3" then
+    (∀ (cls : Char → CClass) [AsciiOK cls] (yf : Bool) (year century : Int) (o : Opts) (tznames : List Token) (tzi : TzInfos) (ho : PlainOpts o tzi) (t dflt : DT) (ht : t.Valid) (hdv : dflt.Valid) (off : Off) (hoff : off.Dom),
+      parse cls (Info.default false yf year century) o tznames tzi dflt (renderCFrac .isoSp false 3 t off) =
+        .ok { dt := TimeFmt.expect (.frac false 3) t dflt, tz := if o.ignoretz then .naive else offDescr tznames off, tokens := none })
+  else if id = "compact_T_dot_f4" then
+    (∀ (cls : Char → CClass) [AsciiOK cls] (yf : Bool) (year century : Int) (o : Opts) (tznames : List Token) (tzi : TzInfos) (ho : PlainOpts o tzi) (t dflt : DT) (ht : t.Valid) (hdv : dflt.Valid) (off : Off) (hoff : off.Dom),
+      parse cls (Info.default false yf year century) o tznames tzi dflt (renderCFrac .compactT false 4 t off) =
+        .ok { dt := TimeFmt.expect (.frac false 4) t dflt, tz := if o.ignoretz then .naive else offDescr tznames off, tokens := none })
+  else if id = "iso_T_ctime_dot_f4" then
+    (∀ (cls : Char → CClass) [AsciiOK cls] (yf : Bool) (year century : Int) (o : Opts) (tznames : List Token) (tzi : TzInfos) (ho : PlainOpts o tzi) (t dflt : DT) (ht : t.Valid) (hdv : dflt.Valid) (off : Off) (hoff : off.Dom),
+      parse cls (Info.default false yf year century) o tznames tzi dflt (renderCFrac .isoT false 4 t off) =
+        .ok { dt := TimeFmt.expect (.frac false 4) t dflt, tz := if o.ignoretz then .naive else offDescr tznames off, tokens := none })
+  else if id = "compact_T_dot_f5" then
+    (∀ (cls : Char → CClass) [AsciiOK cls] (yf : Bool) (year century : Int) (o : Opts) (tznames : List Token) (tzi : TzInfos) (ho : PlainOpts o tzi) (t dflt : DT) (ht : t.Valid) (hdv : dflt.Valid) (off : Off) (hoff : off.Dom),
+      parse cls (Info.default false yf year century) o tznames tzi dflt (renderCFrac .compactT false 5 t off) =
+        .ok { dt := TimeFmt.expect (.frac false 5) t dflt, tz := if o.ignoretz then .naive else offDescr tznames off, tokens := none })
+  else if id = "iso_T_ctime_dot_f5" then
+    (∀ (cls : Char → CClass) [AsciiOK cls] (yf : Bool) (year century : Int) (o : Opts) (tznames : List Token) (tzi : TzInfos) (ho : PlainOpts o tzi) (t dflt : DT) (ht : t.Valid) (hdv : dflt.Valid) (off : Off) (hoff : off.Dom),
+      parse cls (Info.default false yf year century) o tznames tzi dflt (renderCFrac .isoT false 5 t off) =
+        .ok { dt := TimeFmt.expect (.frac false 5) t dflt, tz := if o.ignoretz then .naive else offDescr tznames off, tokens := none })
+  else if id = "iso_T_ctime_dot_f6" then
+    (∀ (cls : Char → CClass) [AsciiOK cls] (yf : Bool) (year century : Int) (o : Opts) (tznames : List Token) (tzi : TzInfos) (ho : PlainOpts o tzi) (t dflt : DT) (ht : t.Valid) (hdv : dflt.Valid) (off : Off) (hoff : off.Dom),
+      parse cls (Info.default false yf year century) o tznames tzi dflt (renderCFrac .isoT false 6 t off) =
+        .ok { dt := TimeFmt.expect (.frac false 6) t dflt, tz := if o.ignoretz then .naive else offDescr tznames off, tokens := none })
+  else if id = "iso_sp_ctime_dot_f6" then
+    (∀ (cls : Char → CClass) [AsciiOK cls] (yf : Bool) (year century : Int) (o : Opts) (tznames : List Token) (tzi : TzInfos) (ho : PlainOpts o tzi) (t dflt : DT) (ht : t.Valid) (hdv : dflt.Valid) (off : Off) (hoff : off.Dom),
+      parse cls (Info.default false yf year century) o tznames tzi dflt (renderCFrac .isoSp false 6 t off) =
+        .ok { dt := TimeFmt.expect (.frac false 6) t dflt, tz := if o.ignoretz then .naive else offDescr tznames off, tokens := none })
+  else if id = "compact_T_comma_f1" then
+    (∀ (cls : Char → CClass) [AsciiOK cls] (yf : Bool) (year century : Int) (o : Opts) (tznames : List Token) (tzi : TzInfos) (ho : PlainOpts o tzi) (t dflt : DT) (ht : t.Valid) (hdv : dflt.Valid) (off : Off) (hoff : off.Dom),
+      parse cls (Info.default false yf year century) o tznames tzi dflt (renderCFrac .compactT true 1 t off) =
+        .ok { dt := TimeFmt.expect (.frac true 1) t dflt, tz := if o.ignoretz then .naive else offDescr tznames off, tokens := none })
+  else if id = "iso_T_ctime_comma_f1" then
+    (∀ (cls : Char → CClass) [AsciiOK cls] (yf : Bool) (year century : Int) (o : Opts) (tznames : List Token) (tzi : TzInfos) (ho : PlainOpts o tzi) (t dflt : DT) (ht : t.Valid) (hdv : dflt.Valid) (off : Off) (hoff : off.Dom),
+      parse cls (Info.default false yf year century) o tznames tzi dflt (renderCFrac .isoT true 1 t off) =
+        .ok { dt := TimeFmt.expect (.frac true 1) t dflt, tz := if o.ignoretz then .naive else offDescr tznames off, tokens := none })
+  else if id = "iso_sp_ctime_comma_f1" then
+    (∀ (cls : Char → CClass) [AsciiOK cls] (yf : Bool) (year century : Int) (o : Opts) (tznames : List Token) (tzi : TzInfos) (ho : PlainOpts o tzi) (t dflt : DT) (ht : t.Valid) (hdv : dflt.Valid) (off : Off) (hoff : off.Dom),
+      parse cls (Info.default false yf year century) o tznames tzi dflt (renderCFrac .isoSp true 1 t off) =
+        .ok { dt := TimeFmt.expect (.frac true 1) t dflt, tz := if o.ignoretz then .naive else offDescr tznames off, tokens := none })
+  else if id = "compact_T_comma_f2" then
+    (∀ (cls : Char → CClass) [AsciiOK cls] (yf : Bool) (year century : Int) (o : Opts) (tznames : List Token) (tzi : TzInfos) (ho : PlainOpts o tzi) (t dflt : DT) (ht : t.Valid) (hdv : dflt.Valid) (off : Off) (hoff : off.Dom),
+      parse cls (Info.default false yf year century) o tznames tzi dflt (renderCFrac .compactT true 2 t off) =
+        .ok { dt := TimeFmt.expect (.frac true 2) t dflt, tz := if o.ignoretz then .naive else offDescr tznames off, tokens := none })
+  else if id = "iso_T_ctime_comma_f2" then
+    (∀ (cls : Char → CClass) [AsciiOK cls] (yf : Bool) (year century : Int) (o : Opts) (tznames : List Token) (tzi : TzInfos) (ho : PlainOpts o tzi) (t dflt : DT) (ht : t.Valid) (hdv : dflt.Valid) (off : Off) (hoff : off.Dom),
+      parse cls (Info.default false yf year century) o tznames tzi dflt (renderCFrac .isoT true 2 t off) =
+        .ok { dt := TimeFmt.expect (.frac true 2) t dflt, tz := if o.ignoretz then .naive else offDescr tznames off, tokens := none })
+  else if id = "compact_T_comma_f3" then
+    (∀ (cls : Char → CClass) [AsciiOK cls] (yf : Bool) (year century : Int) (o : Opts) (tznames : List Token) (tzi : TzInfos) (ho : PlainOpts o tzi) (t dflt : DT) (ht : t.Valid) (hdv : dflt.Valid) (off : Off) (hoff : off.Dom),
+      parse cls (Info.default false yf year century) o tznames tzi dflt (renderCFrac .compactT true 3 t off) =
+        .ok { dt := TimeFmt.expect (.frac true 3) t dflt, tz := if o.ignoretz then .naive else offDescr tznames off, tokens := none })
+  else if id = "iso_T_ctime_comma_f3" then
+    (∀ (cls : Char → CClass) [AsciiOK cls] (yf : Bool) (year century : Int) (o : Opts) (tznames : List Token) (tzi : TzInfos) (ho : PlainOpts o tzi) (t dflt : DT) (ht : t.Valid) (hdv : dflt.Valid) (off : Off) (hoff : off.Dom),
+      parse cls (Info.default false yf year century) o tznames tzi dflt (renderCFrac .isoT true 3 t off) =
+        .ok { dt := TimeFmt.expect (.frac true 3) t dflt, tz := if o.ignoretz then .naive else offDescr tznames off, tokens := none })
+  else if id = "iso_sp_ctime_comma_f3" then
+    (∀ (cls : Char → CClass) [AsciiOK cls] (yf : Bool) (year century : Int) (o : Opts) (tznames : List Token) (tzi : TzInfos) (ho : PlainOpts o tzi) (t dflt : DT) (ht : t.Valid) (hdv : dflt.Valid) (off : Off) (hoff : off.Dom),
+      parse cls (Info.default false yf year century) o tznames tzi dflt (renderCFrac .isoSp true 3 t off) =
+        .ok { dt := TimeFmt.expect (.frac true 3) t dflt, tz := if o.ignoretz then .naive else offDescr tznames off, tokens := none })
+  else if id = "compact_T_comma_f4" then
+    (∀ (cls : Char → CClass) [AsciiOK cls] (yf : Bool) (year century : Int) (o : Opts) (tznames : List Token) (tzi : TzInfos) (ho : PlainOpts o tzi) (t dflt : DT) (ht : t.Valid) (hdv : dflt.Valid) (off : Off) (hoff : off.Dom),
+      parse cls (Info.default false yf year century) o tznames tzi dflt (renderCFrac .compactT true 4 t off) =
+        .ok { dt := TimeFmt.expect (.frac true 4) t dflt, tz := if o.ignoretz then .naive else offDescr tznames off, tokens := none })
+  else if id = "iso_T_ctime_comma_f4" then
+    (∀ (cls : Char → CClass) [AsciiOK cls] (yf : Bool) (year century : Int) (o : Opts) (tznames : List Token) (tzi : TzInfos) (ho : PlainOpts o tzi) (t dflt : DT) (ht : t.Valid) (hdv : dflt.Valid) (off : Off) (hoff : off.Dom),
+      parse cls (Info.default false yf year century) o tznames tzi dflt (renderCFrac .isoT true 4 t off) =
+        .ok { dt := TimeFmt.expect (.frac true 4) t dflt, tz := if o.ignoretz then .naive else offDescr tznames off, tokens := none })
+  else if id = "compact_T_comma_f5" then
+    (∀ (cls : Char → CClass) [AsciiOK cls] (yf : Bool) (year century : Int) (o : Opts) (tznames : List Token) (tzi : TzInfos) (ho : PlainOpts o tzi) (t dflt : DT) (ht : t.Valid) (hdv : dflt.Valid) (off : Off) (hoff : off.Dom),
+      parse cls (Info.default false yf year century) o tznames tzi dflt (renderCFrac .compactT true 5 t off) =
+        .ok { dt := TimeFmt.expect (.frac true 5) t dflt, tz := if o.ignoretz then .naive else offDescr tznames off, tokens := none })
+  else if id = "iso_T_ctime_comma_f5" then
+    (∀ (cls : Char → CClass) [AsciiOK cls] (yf : Bool) (year century : Int) (o : Opts) (tznames : List Token) (tzi : TzInfos) (ho : PlainOpts o tzi) (t dflt : DT) (ht : t.Valid) (hdv : dflt.Valid) (off : Off) (hoff : off.Dom),
+      parse cls (Info.default false yf year century) o tznames tzi dflt (renderCFrac .isoT true 5 t off) =
+        .ok { dt := TimeFmt.expect (.frac true 5) t dflt, tz := if o.ignoretz then .naive else offDescr tznames off, tokens := none })
+  else if id = "compact_T_comma_f6" then
+    (∀ (cls : Char → CClass) [AsciiOK cls] (yf : Bool) (year century : Int) (o : Opts) (tznames : List Token) (tzi : TzInfos) (ho : PlainOpts o tzi) (t dflt : DT) (ht : t.Valid) (hdv : dflt.Valid) (off : Off) (hoff : off.Dom),
+      parse cls (Info.default false yf year century) o tznames tzi dflt (renderCFrac .compactT true 6 t off) =
+        .ok { dt := TimeFmt.expect (.frac true 6) t dflt, tz := if o.ignoretz then .naive else offDescr tznames off, tokens := none })
+  else if id = "iso_T_ctime_comma_f6" then
+    (∀ (cls : Char → CClass) [AsciiOK cls] (yf : Bool) (year century : Int) (o : Opts) (tznames : List Token) (tzi : TzInfos) (ho : PlainOpts o tzi) (t dflt : DT) (ht : t.Valid) (hdv : dflt.Valid) (off : Off) (hoff : off.Dom),
+      parse cls (Info.default false yf year century) o tznames tzi dflt (renderCFrac .isoT true 6 t off) =
+        .ok { dt := TimeFmt.expect (.frac true 6) t dflt, tz := if o.ignoretz then .naive else offDescr tznames off, tokens := none })
+  else if id = "iso_sp_ctime_comma_f6" then
+    (∀ (cls : Char → CClass) [AsciiOK cls] (yf : Bool) (year century : Int) (o : Opts) (tznames : List Token) (tzi : TzInfos) (ho : PlainOpts o tzi) (t dflt : DT) (ht : t.Valid) (hdv : dflt.Valid) (off : Off) (hoff : off.Dom),
+      parse cls (Info.default false yf year century) o tznames tzi dflt (renderCFrac .isoSp true 6 t off) =
+        .ok { dt := TimeFmt.expect (.frac true 6) t dflt, tz := if o.ignoretz then .naive else offDescr tznames off, tokens := none })
+  else if id = "compact_T_us" then
+    (∀ (cls : Char → CClass) [AsciiOK cls] (yf : Bool) (year century : Int) (o : Opts) (tznames : List Token) (tzi : TzInfos) (ho : PlainOpts o tzi) (t dflt : DT) (ht : t.Valid) (hdv : dflt.Valid) (off : Off) (hoff : off.Dom),
+      parse cls (Info.default false yf year century) o tznames tzi dflt (renderCFrac .compactT false 6 t off) =
+        .ok { dt := TimeFmt.expect (.frac false 6) t dflt, tz := if o.ignoretz then .naive else offDescr tznames off, tokens := none })
   else if id = "rfc2822" then
     (∀ (cls : Char → CClass) [AsciiOK cls] (yf : Bool) (year century : Int) (o : Opts) (tznames : List Token) (tzi : TzInfos) (ho : PlainOpts o tzi) (t dflt : DT) (ht : t.Valid) (hdv : dflt.Valid) (hy : 100 ≤ t.y) (off : Off) (hoff : off.Dom),
       parse cls (Info.default false yf year century) o tznames tzi dflt (renderMon (.rfc2822 t.weekday.toNat) t off) =
@@ -478,7 +642,7 @@ def TemplateThm (id : String) : Prop :=
 theorem proved_templates_have_theorems : ∀ p ∈ provedTemplates, TemplateThm p.1 := by
   intro p hp
   simp only [provedTemplates, List.mem_cons, List.mem_nil_iff, or_false] at hp
-  rcases hp with rfl | rfl | rfl | rfl | rfl | rfl | rfl | rfl | rfl | rfl | rfl | rfl | rfl | rfl | rfl | rfl | rfl | rfl | rfl | rfl | rfl | rfl | rfl | rfl | rfl | rfl | rfl | rfl | rfl | rfl | rfl | rfl | rfl | rfl | rfl | rfl | rfl | rfl | rfl | rfl | rfl | rfl | rfl | rfl
+  rcases hp with rfl | rfl | rfl | rfl | rfl | rfl | rfl | rfl | rfl | rfl | rfl | rfl | rfl | rfl | rfl | rfl | rfl | rfl | rfl | rfl | rfl | rfl | rfl | rfl | rfl | rfl | rfl | rfl | rfl | rfl | rfl | rfl | rfl | rfl | rfl | rfl | rfl | rfl | rfl | rfl | rfl | rfl | rfl | rfl | rfl | rfl | rfl | rfl | rfl | rfl | rfl | rfl | rfl | rfl | rfl | rfl | rfl | rfl | rfl | rfl | rfl | rfl | rfl | rfl | rfl | rfl | rfl | rfl | rfl | rfl | rfl | rfl | rfl | rfl | rfl | rfl | rfl | rfl | rfl | rfl | rfl | rfl
   · show TemplateThm "us_slash"
     simp only [TemplateThm]
     exact fun cls _ yf year century o tznames tzi ho hdf hyf t dflt ht hdv off hoff => tpl_us_slash cls yf year century o tznames tzi ho hdf hyf t dflt ht hdv off hoff
@@ -597,6 +761,158 @@ theorem proved_templates_have_theorems : ∀ p ∈ provedTemplates, TemplateThm 
     simp only [TemplateThm]
     exact fun cls _ yf year century o tznames tzi ho t dflt ht hdv off hoff =>
       parse_isoX cls yf year century o tznames tzi ho dflt hdv t ht 'T' (by decide) (.frac false 5) (by simp [timeFmtDom]) off hoff
+  · show TemplateThm "iso_T_comma_f1"
+    simp only [TemplateThm]
+    exact fun cls _ yf year century o tznames tzi ho t dflt ht hdv off hoff =>
+      parse_isoX cls yf year century o tznames tzi ho dflt hdv t ht 'T' (by decide) (.frac true 1) (by simp [timeFmtDom]) off hoff
+  · show TemplateThm "iso_T_comma_f2"
+    simp only [TemplateThm]
+    exact fun cls _ yf year century o tznames tzi ho t dflt ht hdv off hoff =>
+      parse_isoX cls yf year century o tznames tzi ho dflt hdv t ht 'T' (by decide) (.frac true 2) (by simp [timeFmtDom]) off hoff
+  · show TemplateThm "iso_T_comma_f4"
+    simp only [TemplateThm]
+    exact fun cls _ yf year century o tznames tzi ho t dflt ht hdv off hoff =>
+      parse_isoX cls yf year century o tznames tzi ho dflt hdv t ht 'T' (by decide) (.frac true 4) (by simp [timeFmtDom]) off hoff
+  · show TemplateThm "iso_T_comma_f5"
+    simp only [TemplateThm]
+    exact fun cls _ yf year century o tznames tzi ho t dflt ht hdv off hoff =>
+      parse_isoX cls yf year century o tznames tzi ho dflt hdv t ht 'T' (by decide) (.frac true 5) (by simp [timeFmtDom]) off hoff
+  · show TemplateThm "iso_sp_dot_f1"
+    simp only [TemplateThm]
+    exact fun cls _ yf year century o tznames tzi ho t dflt ht hdv off hoff =>
+      parse_isoX cls yf year century o tznames tzi ho dflt hdv t ht ' ' (by decide) (.frac false 1) (by simp [timeFmtDom]) off hoff
+  · show TemplateThm "iso_sp_dot_f2"
+    simp only [TemplateThm]
+    exact fun cls _ yf year century o tznames tzi ho t dflt ht hdv off hoff =>
+      parse_isoX cls yf year century o tznames tzi ho dflt hdv t ht ' ' (by decide) (.frac false 2) (by simp [timeFmtDom]) off hoff
+  · show TemplateThm "iso_sp_dot_f4"
+    simp only [TemplateThm]
+    exact fun cls _ yf year century o tznames tzi ho t dflt ht hdv off hoff =>
+      parse_isoX cls yf year century o tznames tzi ho dflt hdv t ht ' ' (by decide) (.frac false 4) (by simp [timeFmtDom]) off hoff
+  · show TemplateThm "iso_sp_dot_f5"
+    simp only [TemplateThm]
+    exact fun cls _ yf year century o tznames tzi ho t dflt ht hdv off hoff =>
+      parse_isoX cls yf year century o tznames tzi ho dflt hdv t ht ' ' (by decide) (.frac false 5) (by simp [timeFmtDom]) off hoff
+  · show TemplateThm "compact_T_dot_f1"
+    simp only [TemplateThm]
+    exact fun cls _ yf year century o tznames tzi ho t dflt ht hdv off hoff =>
+      parse_cfrac cls yf year century o tznames tzi ho dflt hdv t ht .compactT false 1 (by decide) (by decide) off hoff
+  · show TemplateThm "iso_T_ctime_dot_f1"
+    simp only [TemplateThm]
+    exact fun cls _ yf year century o tznames tzi ho t dflt ht hdv off hoff =>
+      parse_cfrac cls yf year century o tznames tzi ho dflt hdv t ht .isoT false 1 (by decide) (by decide) off hoff
+  · show TemplateThm "iso_sp_ctime_dot_f1"
+    simp only [TemplateThm]
+    exact fun cls _ yf year century o tznames tzi ho t dflt ht hdv off hoff =>
+      parse_cfrac cls yf year century o tznames tzi ho dflt hdv t ht .isoSp false 1 (by decide) (by decide) off hoff
+  · show TemplateThm "compact_T_dot_f2"
+    simp only [TemplateThm]
+    exact fun cls _ yf year century o tznames tzi ho t dflt ht hdv off hoff =>
+      parse_cfrac cls yf year century o tznames tzi ho dflt hdv t ht .compactT false 2 (by decide) (by decide) off hoff
+  · show TemplateThm "iso_T_ctime_dot_f2"
+    simp only [TemplateThm]
+    exact fun cls _ yf year century o tznames tzi ho t dflt ht hdv off hoff =>
+      parse_cfrac cls yf year century o tznames tzi ho dflt hdv t ht .isoT false 2 (by decide) (by decide) off hoff
+  · show TemplateThm "compact_T_dot_f3"
+    simp only [TemplateThm]
+    exact fun cls _ yf year century o tznames tzi ho t dflt ht hdv off hoff =>
+      parse_cfrac cls yf year century o tznames tzi ho dflt hdv t ht .compactT false 3 (by decide) (by decide) off hoff
+  · show TemplateThm "iso_T_ctime_dot_f3"
+    simp only [TemplateThm]
+    exact fun cls _ yf year century o tznames tzi ho t dflt ht hdv off hoff =>
+      parse_cfrac cls yf year century o tznames tzi ho dflt hdv t ht .isoT false 3 (by decide) (by decide) off hoff
+  · show TemplateThm "iso_sp_ctime_dot_f3"
+    simp only [TemplateThm]
+    exact fun cls _ yf year century o tznames tzi ho t dflt ht hdv off hoff =>
+      parse_cfrac cls yf year century o tznames tzi ho dflt hdv t ht .isoSp false 3 (by decide) (by decide) off hoff
+  · show TemplateThm "compact_T_dot_f4"
+    simp only [TemplateThm]
+    exact fun cls _ yf year century o tznames tzi ho t dflt ht hdv off hoff =>
+      parse_cfrac cls yf year century o tznames tzi ho dflt hdv t ht .compactT false 4 (by decide) (by decide) off hoff
+  · show TemplateThm "iso_T_ctime_dot_f4"
+    simp only [TemplateThm]
+    exact fun cls _ yf year century o tznames tzi ho t dflt ht hdv off hoff =>
+      parse_cfrac cls yf year century o tznames tzi ho dflt hdv t ht .isoT false 4 (by decide) (by decide) off hoff
+  · show TemplateThm "compact_T_dot_f5"
+    simp only [TemplateThm]
+    exact fun cls _ yf year century o tznames tzi ho t dflt ht hdv off hoff =>
+      parse_cfrac cls yf year century o tznames tzi ho dflt hdv t ht .compactT false 5 (by decide) (by decide) off hoff
+  · show TemplateThm "iso_T_ctime_dot_f5"
+    simp only [TemplateThm]
+    exact fun cls _ yf year century o tznames tzi ho t dflt ht hdv off hoff =>
+      parse_cfrac cls yf year century o tznames tzi ho dflt hdv t ht .isoT false 5 (by decide) (by decide) off hoff
+  · show TemplateThm "iso_T_ctime_dot_f6"
+    simp only [TemplateThm]
+    exact fun cls _ yf year century o tznames tzi ho t dflt ht hdv off hoff =>
+      parse_cfrac cls yf year century o tznames tzi ho dflt hdv t ht .isoT false 6 (by decide) (by decide) off hoff
+  · show TemplateThm "iso_sp_ctime_dot_f6"
+    simp only [TemplateThm]
+    exact fun cls _ yf year century o tznames tzi ho t dflt ht hdv off hoff =>
+      parse_cfrac cls yf year century o tznames tzi ho dflt hdv t ht .isoSp false 6 (by decide) (by decide) off hoff
+  · show TemplateThm "compact_T_comma_f1"
+    simp only [TemplateThm]
+    exact fun cls _ yf year century o tznames tzi ho t dflt ht hdv off hoff =>
+      parse_cfrac cls yf year century o tznames tzi ho dflt hdv t ht .compactT true 1 (by decide) (by decide) off hoff
+  · show TemplateThm "iso_T_ctime_comma_f1"
+    simp only [TemplateThm]
+    exact fun cls _ yf year century o tznames tzi ho t dflt ht hdv off hoff =>
+      parse_cfrac cls yf year century o tznames tzi ho dflt hdv t ht .isoT true 1 (by decide) (by decide) off hoff
+  · show TemplateThm "iso_sp_ctime_comma_f1"
+    simp only [TemplateThm]
+    exact fun cls _ yf year century o tznames tzi ho t dflt ht hdv off hoff =>
+      parse_cfrac cls yf year century o tznames tzi ho dflt hdv t ht .isoSp true 1 (by decide) (by decide) off hoff
+  · show TemplateThm "compact_T_comma_f2"
+    simp only [TemplateThm]
+    exact fun cls _ yf year century o tznames tzi ho t dflt ht hdv off hoff =>
+      parse_cfrac cls yf year century o tznames tzi ho dflt hdv t ht .compactT true 2 (by decide) (by decide) off hoff
+  · show TemplateThm "iso_T_ctime_comma_f2"
+    simp only [TemplateThm]
+    exact fun cls _ yf year century o tznames tzi ho t dflt ht hdv off hoff =>
+      parse_cfrac cls yf year century o tznames tzi ho dflt hdv t ht .isoT true 2 (by decide) (by decide) off hoff
+  · show TemplateThm "compact_T_comma_f3"
+    simp only [TemplateThm]
+    exact fun cls _ yf year century o tznames tzi ho t dflt ht hdv off hoff =>
+      parse_cfrac cls yf year century o tznames tzi ho dflt hdv t ht .compactT true 3 (by decide) (by decide) off hoff
+  · show TemplateThm "iso_T_ctime_comma_f3"
+    simp only [TemplateThm]
+    exact fun cls _ yf year century o tznames tzi ho t dflt ht hdv off hoff =>
+      parse_cfrac cls yf year century o tznames tzi ho dflt hdv t ht .isoT true 3 (by decide) (by decide) off hoff
+  · show TemplateThm "iso_sp_ctime_comma_f3"
+    simp only [TemplateThm]
+    exact fun cls _ yf year century o tznames tzi ho t dflt ht hdv off hoff =>
+      parse_cfrac cls yf year century o tznames tzi ho dflt hdv t ht .isoSp true 3 (by decide) (by decide) off hoff
+  · show TemplateThm "compact_T_comma_f4"
+    simp only [TemplateThm]
+    exact fun cls _ yf year century o tznames tzi ho t dflt ht hdv off hoff =>
+      parse_cfrac cls yf year century o tznames tzi ho dflt hdv t ht .compactT true 4 (by decide) (by decide) off hoff
+  · show TemplateThm "iso_T_ctime_comma_f4"
+    simp only [TemplateThm]
+    exact fun cls _ yf year century o tznames tzi ho t dflt ht hdv off hoff =>
+      parse_cfrac cls yf year century o tznames tzi ho dflt hdv t ht .isoT true 4 (by decide) (by decide) off hoff
+  · show TemplateThm "compact_T_comma_f5"
+    simp only [TemplateThm]
+    exact fun cls _ yf year century o tznames tzi ho t dflt ht hdv off hoff =>
+      parse_cfrac cls yf year century o tznames tzi ho dflt hdv t ht .compactT true 5 (by decide) (by decide) off hoff
+  · show TemplateThm "iso_T_ctime_comma_f5"
+    simp only [TemplateThm]
+    exact fun cls _ yf year century o tznames tzi ho t dflt ht hdv off hoff =>
+      parse_cfrac cls yf year century o tznames tzi ho dflt hdv t ht .isoT true 5 (by decide) (by decide) off hoff
+  · show TemplateThm "compact_T_comma_f6"
+    simp only [TemplateThm]
+    exact fun cls _ yf year century o tznames tzi ho t dflt ht hdv off hoff =>
+      parse_cfrac cls yf year century o tznames tzi ho dflt hdv t ht .compactT true 6 (by decide) (by decide) off hoff
+  · show TemplateThm "iso_T_ctime_comma_f6"
+    simp only [TemplateThm]
+    exact fun cls _ yf year century o tznames tzi ho t dflt ht hdv off hoff =>
+      parse_cfrac cls yf year century o tznames tzi ho dflt hdv t ht .isoT true 6 (by decide) (by decide) off hoff
+  · show TemplateThm "iso_sp_ctime_comma_f6"
+    simp only [TemplateThm]
+    exact fun cls _ yf year century o tznames tzi ho t dflt ht hdv off hoff =>
+      parse_cfrac cls yf year century o tznames tzi ho dflt hdv t ht .isoSp true 6 (by decide) (by decide) off hoff
+  · show TemplateThm "compact_T_us"
+    simp only [TemplateThm]
+    exact fun cls _ yf year century o tznames tzi ho t dflt ht hdv off hoff =>
+      parse_cfrac cls yf year century o tznames tzi ho dflt hdv t ht .compactT false 6 (by decide) (by decide) off hoff
   · show TemplateThm "rfc2822"
     simp only [TemplateThm]
     exact fun cls _ yf year century o tznames tzi ho t dflt ht hdv hy off hoff =>
